@@ -225,6 +225,9 @@ def write_evidence(prop, tier, seed, res, wall, nviol, extra_assumptions=()):
         "notes": d["notes"],
         "exhaustive": False,
     }
+    if states == 0 or trans == 0:
+        # no design model-checking run in this check: trace validation only (generic counters apply)
+        del cov["states"], cov["transitions"]
     ev = {"property_id": prop, "tier": tier, "seed": seed, "level": "model_checking",
           "coverage": cov,
           "assumptions": list(extra_assumptions) + d.get("assumptions", []),
